@@ -252,7 +252,8 @@ theorem swap_out_of_range (sz n : Nat) (ops : List Op) (h i j a : Nat) (l : RawL
   have inv := Inv_runSt ops (Inv_init sz n)
   have : stepE sz (runSt sz (St.init n) ops) (.swap h i j) = .ok (.unit, runSt sz (St.init n) ops) := by
     refine withLock_read' (f := fun l => .ok (.unit, rawSwap l i j)) inv hs hl ?_
-    have : rawSwap l i j = l := by unfold rawSwap; rw [if_pos (by omega)]
+    have : rawSwap l i j = l := by
+      unfold rawSwap; rw [swap_noop_eq, decide_eq_true (by omega), if_pos rfl]
     simp only [this]
   simp only [step, this]
 
